@@ -116,6 +116,20 @@ def r2(ctx):
     if ki != [0] or vi != [1]:
         # iterator form: key = it.next(), value = it.next() on one splitn(2, b'=') iterator, key taken first
         def next_of(o):
+            # `let (Some(k), Some(v)) = (it.next(), it.next()) else ..` / `let Some(k) = it.next() else ..`: the payload of
+            # one particular next() call (a slice would see both: next(&mut it) also defines `it`)
+            od = b.origin_def(o)
+            if od and od[0] == "place":
+                nd = [e for e in od[1]["proj"] if e != "deref"]
+                src = None
+                if len(nd) == 3 and "field" in nd[0] and nd[1].get("downcast") == "Some" and "field" in nd[2]:
+                    sd = [d for d in b.defs().get(od[1]["local"], []) if d["kind"] != "mutcall"]
+                    if len(sd) == 1 and sd[0]["kind"] == "assign" and sd[0]["stmt"]["rv"].get("tuple") and nd[0]["idx"] < len(sd[0]["stmt"]["rv"]["ops"]):
+                        src = b.origin_def(sd[0]["stmt"]["rv"]["ops"][nd[0]["idx"]])
+                elif len(nd) == 2 and nd[0].get("downcast") == "Some" and "field" in nd[1]:
+                    src = b.origin_def({"copy": {"local": od[1]["local"], "proj": []}})
+                if src and src[0] == "def" and src[1]["kind"] == "call" and re.search(r"Iterator::next$", src[1]["term"]["callee"]) and "SplitN" in src[1]["term"].get("resolved_full", ""):
+                    return [(src[1]["block"], src[1]["term"])]
             sl_ = b.slice_op(o)
             nx = [c_ for c_ in sl_.find_calls(r"Iterator::next$") if "SplitN" in c_[1].get("resolved_full", "")]
             return nx
@@ -251,6 +265,12 @@ def r4(ctx):
                     v = h if w == "h" else q
                     nxt = [bb for vv, bb in t["targets"] if vv == v]
                     blk = nxt[0] if nxt else t["otherwise"]
+                    continue
+                if t["k"] == "call" and re.search(r"Option::<T>::is_(some|none)$", t.get("callee", "")) and t.get("target") is not None:
+                    blk = t["target"]
+                    continue
+                if t["k"] == "goto" and not b.blocks[blk]["stmts"]:
+                    blk = t["target"]  # empty connector block between two tests
                     continue
                 # first non-switch block: classify by what happens from here
                 calls = [tt["callee"].split("::")[-1] for bb in [blk] for tt in [b.term(bb)] if tt["k"] == "call"]
